@@ -1,11 +1,16 @@
 """C17 - pathways are real, bottleneck-optimal and never over-explain the flux."""
 from pyvc.runner import Run, Unit, resolve_failures
-from contracts import tpt_path as TP
+from contracts import tpt_path as TP, tpt_toppath as TTP
 
 PF = 'enspara/tpt/path.py'
 MUT_H = [('bottleneck-copy-dropped', PF, "    net_flux = copy.copy(net_flux)\n\n    bottleneck_ind = net_flux[path[:-1], path[1:]].argmin()\n", "    bottleneck_ind = net_flux[path[:-1], path[1:]].argmin()\n"),
          ('subtracts-the-largest-edge', PF, "net_flux[path[:-1], path[1:]].min()", "net_flux[path[:-1], path[1:]].max()"),
          ('removes-the-widest-edge', PF, "    net_flux = copy.copy(net_flux)\n\n    bottleneck_ind = net_flux[path[:-1], path[1:]].argmin()\n", "    net_flux = copy.copy(net_flux)\n\n    bottleneck_ind = net_flux[path[:-1], path[1:]].argmax()\n")]
+MUT_T = [('own-width-not-applied', PF, "        new_fluxes[np.where(new_fluxes > min_fluxes[test_node])] = min_fluxes[test_node]\n", ""),
+         ('zero-edges-followed', PF, "        neighbors = np.where(net_flux[test_node, :] > 0)[0]", "        neighbors = np.where(net_flux[test_node, :] >= 0)[0]"),
+         ('visited-states-updated', PF, "(1 - visited[neighbors]) & (new_fluxes > min_fluxes[neighbors])", "(new_fluxes > min_fluxes[neighbors])"),
+         ('path-not-reversed', PF, "    return np.array(top_path[::-1]), min_fluxes[top_path[0]]", "    return np.array(top_path), min_fluxes[top_path[0]]"),
+         ('column-instead-of-row', PF, "        neighbors = np.where(net_flux[test_node, :] > 0)[0]", "        neighbors = np.where(net_flux[:, test_node] > 0)[0]")]
 MUT_P = [('one-path-too-many', PF, "        if counter >= num_paths or expl_flux >= flux_cutoff:", "        if counter > num_paths or expl_flux >= flux_cutoff:"),
          ('caller-matrix-edited', PF, "    net_flux = copy.copy(net_flux)\n\n    paths = []", "    net_flux = np.asarray(net_flux)\n    net_flux[:, sources] = 0.0\n\n    paths = []"),
          ('infinite-flux-recorded', PF, "        if np.isinf(flux):\n            break\n", "")]
@@ -13,7 +18,7 @@ MUT_P = [('one-path-too-many', PF, "        if counter >= num_paths or expl_flux
 
 def run(tier, seed, update_lock=False):
     R = Run('C17', 'other', tier, seed)
-    units = [Unit('path-removal', TP.registry(), mutants=MUT_H),
+    units = [Unit('top-path', TTP.registry(), mutants=MUT_T, budget=20), Unit('path-removal', TP.registry(), mutants=MUT_H),
              Unit('paths[subtract]', TP.registry_paths('subtract', False), keys=[TP.F + 'paths'], mutants=MUT_P),
              Unit('paths[bottleneck]', TP.registry_paths('bottleneck', False), keys=[TP.F + 'paths']),
              Unit('paths[subtract,unlimited]', TP.registry_paths('subtract', True), keys=[TP.F + 'paths'])]
@@ -27,8 +32,9 @@ def run(tier, seed, update_lock=False):
               args=['--exclude=' + ','.join(R.excluded())])
     R.report_known('C17.py')
     resolve_failures(R, 'C17.py', lambda f: None)
-    R.clauses = [{'clause': 'path removal: _remove_bottleneck zeroes exactly the first minimal edge of the path; _subtract_path_flux lowers every path edge by the bottleneck flux (nothing negative appears, a bottleneck edge becomes exactly 0); every other entry and the caller\'s matrix unchanged. paths(): one flux per path, never more paths than requested, every reported flux finite and positive, preconditions of the removal step hold at every call, caller\'s flux matrix unchanged - given top_path\'s contract', 'status': 'proved (SMT on the real helpers and the real paths loop; top_path\'s contract is ASSUMED there and checked by the bounded driver)'},
+    R.clauses = [{'clause': 'top_path (the widest-path search), partial correctness for any number of states: the returned nodes are states, no state twice, the path ends at a sink and (unless no sink was reached) starts at a source, every consecutive pair is an edge of positive flux, the reported flux is at most every edge of the path and attained on one of them (or +-inf), a finite flux is positive and comes with at least one edge', 'status': 'proved (SMT on the real top_path; loop invariants with two ghost variables: visit order, attainment witness). NOT proved: optimality (no wider path exists) and termination - bounded'},
+                 {'clause': 'path removal: _remove_bottleneck zeroes exactly the first minimal edge of the path; _subtract_path_flux lowers every path edge by the bottleneck flux (nothing negative appears, a bottleneck edge becomes exactly 0); every other entry and the caller\'s matrix unchanged. paths(): one flux per path, never more paths than requested, every reported flux finite and positive, the working matrix stays finite, preconditions of the search and of the removal step hold at every call, caller\'s flux matrix unchanged', 'status': 'proved (SMT on the real helpers and the real paths loop, on top of top_path\'s proved contract)'},
                  {'clause': 'every pathway is a simple source-to-sink path along positive residual edges whose reported flux is its smallest edge; top path has the largest bottleneck', 'status': 'bounded (exhaustive path enumeration on graphs <= 6 nodes); the inductive invariants of the search loop were checked by hand-encoded VCs in the design phase only'},
                  {'clause': 'successive fluxes never increase; sum <= source outflow (subtract scheme); reaches the requested fraction for conserved flows; num_paths respected; caller\'s matrix unchanged', 'status': 'bounded; bottleneck scheme over-explains: listed finding'}]
-    R.assumptions += ['top_path (Dijkstra search with a Python list as queue) is not under a proved contract: its contract is assumed at the call site in paths() and exercised by the bounded driver against exhaustive path enumeration']
-    return R.finish('Deductive: path-removal helpers and the paths() loop modulo top_path. Bounded stand-in for the rest. A full inductive proof of widest-path optimality over NumPy-vectorised relaxation is deliberately not attempted (DESIGN 9).', update_lock=update_lock)
+    R.assumptions += ['termination of the search, of the backtracking walk and of the paths() loop is not proved; optimality of the path found (largest bottleneck) is only checked by the bounded driver against exhaustive path enumeration', 'np.inf is a real constant larger than every matrix entry (precondition: finite fluxes)']
+    return R.finish('Deductive: top_path (partial correctness), path-removal helpers and the paths() loop. Bounded stand-in for the rest. A full inductive proof of widest-path optimality over NumPy-vectorised relaxation is deliberately not attempted (DESIGN 9).', update_lock=update_lock)
